@@ -66,6 +66,27 @@ static void k_runtime(K &k)
     for (long i = 0; i < k.n; i++)
         k.b[i] = k.a[i] * 3 + 1;
 }
+static void k_runtime_set_dynamic(K &k)
+{
+    omp_set_schedule(omp_sched_dynamic, 3);
+#pragma omp parallel for schedule(runtime)
+    for (uint64_t i = 0; i < (uint64_t)k.n; i++)
+        k.b[i] = k.a[i] * 3 + 1;
+}
+static void k_runtime_set_static(K &k)
+{
+    omp_set_schedule(omp_sched_static, 0);
+#pragma omp parallel for schedule(runtime)
+    for (long i = 0; i < k.n; i++)
+        k.b[i] = k.a[i] * 3 + 1;
+}
+static void k_runtime_set_guided(K &k)
+{
+    omp_set_schedule(omp_sched_guided, 2);
+#pragma omp parallel for schedule(runtime)
+    for (long i = k.n - 1; i >= 0; i--)
+        k.b[i] = k.a[i] * 3 + 1;
+}
 static void k_two_phase_barrier(K &k)
 {
     // phase 1 writes b, barrier, phase 2 reads neighbours of b: ordered by the barrier, no race
@@ -245,6 +266,9 @@ int main()
         {"dynamic_ull", k_dynamic_ull, false, 0},
         {"guided_down", k_guided_down, false, 0},
         {"runtime", k_runtime, false, 0},
+        {"runtime_set_dynamic", k_runtime_set_dynamic, false, 0},
+        {"runtime_set_static", k_runtime_set_static, false, 0},
+        {"runtime_set_guided", k_runtime_set_guided, false, 0},
         {"two_phase_barrier", k_two_phase_barrier, false, 1},
         {"two_phase_nowait_race", k_two_phase_nowait_race, true, 4},
         {"critical_sum", k_critical_sum, false, 2},
